@@ -84,5 +84,5 @@ func TestC10Hostile(t *testing.T) {
 	if len(reg) != len(hostileBases) {
 		t.Fatalf("SELFTEST-FAIL hostile bases name %d entries, %d found in the registry", len(hostileBases), len(reg))
 	}
-	core.Sweep(t, reg)
+	core.PrefixSweep(t, reg)
 }
